@@ -1,10 +1,11 @@
 from vlib.core import Query
+from checks import C06
 
 SHIMS = ["uatomic_seq.h", "upool_depth0.h"]
 
 CLAIM = {
     "text": "Bounded model checking of the real control() functions of upipe_skip, chunk_stream, delay, genaux, time_limit, rate_limit, "
-            "aggregate (output_size helper), setattr and setflowdef, driven through the public getter/setter API over the real "
+            "aggregate (output_size helper), setattr, setflowdef, queue sink (max_length, pseudo-output) and queue source (max_length, length, output), driven through the public getter/setter API over the real "
             "uref_std / udict_inline / ubuf_block_mem managers: for two SYMBOLIC values per option (all 64-bit values, or small ranges where "
             "the pipe divides by them) a getter called after an accepted setter returns the value set, a rejected setter leaves the "
             "previous value in force, the getter's output variable is pre-loaded with symbolic junk (a getter that reads its argument is "
@@ -13,7 +14,8 @@ CLAIM = {
     "note": "Trusted: CBMC 6.11; type-exact function-pointer target sets computed by vlib/fprestrict.py (guarded by inserted assertions); "
             "harness probe/sinks (pipe_env.h); mock pump manager for time_limit/rate_limit; vsnprintf stub (log text is not observed); "
             "uatomic_seq.h / upool_depth0.h / static managers. Data path: one 4-octet buffer, concrete configuration for chunk_stream and "
-            "aggregate. Not covered: queue_sink/queue_source/buffer/ts_sync options, pipes needing external libraries.",
+            "aggregate. Queue sink / queue source options run on harness/C06_queue.c (getters "
+            "interleaved with a monitored stream). Not covered: buffer / ts_sync options, pipes needing external libraries.",
     "technique": "CBMC bounded model checking of real C pipes (goto-cc) with symbolic option values; twin-instance non-interference; "
                  "type-exact function-pointer restriction",
 }
@@ -31,10 +33,14 @@ def build(tier):
                         shims=SHIMS, unwind=8, unwindset=UW, fp_restrict=True, timeout=280, replay_witness=True,
                         sample={"pipe.option": nm, "values": "two symbolic values (accepted or rejected), getter output pre-loaded with symbolic junk",
                                 "non-interference": "twin instance receiving extra getter calls, same 4 symbolic input octets"}))
-    meta = {"bounds": {"options": [n for _, _, n in PIPES], "values": "2 symbolic values per option + symbolic junk in the getter's output variable",
+    # queue sink / queue source (harness/C06_queue.c): set_max_length + get (symbolic value), every getter of both pipes
+    # (max_length, queue length, output, pseudo-output, flow definition) interleaved with a stream whose delivery is monitored
+    for ops in ([17, 0, 2, 16, 17, 2, 7, 17, 9, 7, 17, 2, 4], [10, 17, 16, 0, 2, 17, 11, 17, 4], [16, 0, 2, 2, 17, 16, 9, 17, 7, 4]):
+        qs.append(C06.q("getset_queue_" + "-".join(map(str, ops)), ops, 1, timeout=280, replay=True, sample=(ops[0] == 17)))
+    meta = {"bounds": {"options": [n for _, _, n in PIPES] + ["queue_sink.max_length", "queue_sink.output", "queue_source.max_length / length / output"], "values": "2 symbolic values per option + symbolic junk in the getter's output variable",
                        "data": "one buffer of 4 symbolic octets per instance", "unwind": 8},
             "assumptions": ["the probe answers NEED_UPUMP_MGR with the mock manager for time_limit / rate_limit (they refuse control commands without one)",
                             "value ranges: skip.offset <= 6, chunk mtu/align <= 8, aggregate output_size <= 8 (divisors / sizes); others full width",
                             "sequential shims uatomic_seq.h, upool_depth0.h (+VERIF_POOL_NO_MGR_REF), static managers"],
-            "outside": ["queue_sink / queue_source / buffer / ts_sync option pairs", "more than one input buffer", "allocation failure"]}
+            "outside": ["buffer / ts_sync option pairs", "more than one input buffer", "allocation failure"]}
     return qs, meta
